@@ -1047,3 +1047,35 @@ class C19(Base):
 
     def native_args(self, tier, seed):
         return ["native", "c19", "1000000", str(seed)]
+
+
+@prop("C18")
+class C18(Base):
+    title = "approximate-equality and predicate methods test every component"
+    design_ref = "§6 C18"
+    ops = []
+    technique = BOOK_TECH
+    level_note = ("Trusted: Lean kernel + Mathlib; the approx crate's scalar relations are the parameter `r` of the model (their "
+                  "verdicts are read off the implementation per component and fed to the model); the tie is exhaustive over "
+                  "every compound type x component position x {inside, outside} each tolerance x f32/f64, not a proof about "
+                  "the Rust source.")
+
+    def native_args(self, tier, seed):
+        return ["native", "c18", "0", str(seed)]
+
+
+@prop("C20")
+class C20(Base):
+    title = "serialized values round-trip exactly and keep their field structure"
+    design_ref = "§6 C20"
+    ops = []
+    technique = ("Lean 4 theorems about a model of the hand-written Decomposed visitor (fold over the key sequence) + exhaustive "
+                 "native correspondence on serde_json Value trees (every serialisable type, f32/f64/i32/u64, every permutation / "
+                 "omission / unknown / duplicate key sequence fed through the Lean model)")
+    level_note = ("Trusted: Lean kernel + Mathlib; serde's framework and derive macro, and serde_json's Value representation, are "
+                  "external parameters; bit-exactness is checked through serde_json::Value (serde_json's *text* float parser is "
+                  "not exact without its float_roundtrip feature and is outside cgmath); the derived impls are tied by the native "
+                  "check only, the hand-written Decomposed impl also by the model.")
+
+    def native_args(self, tier, seed):
+        return ["native", "c20", "100" if tier == "quick" else "20000", str(seed)]
